@@ -11,6 +11,8 @@ Only the public API of haiway is used, with one exception: the identity of the c
 """
 import asyncio
 import logging
+import os
+import random
 
 from haiway import MissingContext, MissingState, State, ctx
 
@@ -136,8 +138,15 @@ class Disp:
 
 
 class World:
+    _n = 0
+
     def __init__(self, types=("A", "B"), start=1000.0, probing=True):
         self.probing = probing
+        # VERIF_SCHEDULE=random: ready handles of one instant run in a seeded random order instead of FIFO, so the
+        # library is exercised under schedules finer than the model's macro-steps (outcomes must not depend on them)
+        self.schedule = os.environ.get("VERIF_SCHEDULE", "fifo")
+        self._rnd = random.Random(int(os.environ.get("VERIF_SEED", "0") or 0) + World._n)
+        World._n += 1
         self.closing = False
         self.loop = VLoop(start=start)
         self.clock = VClock(self.loop)
@@ -152,6 +161,8 @@ class World:
         self.disps = {}
         self.completions = []
         self.wills = {}
+        if self.schedule == "random":
+            self.loop.policy = lambda live: self._rnd.randrange(len(live))
         self.cap = _Capture()
         self.root = logging.getLogger()
         self._root_level = self.root.level
